@@ -47,6 +47,9 @@ TRUSTED = [
 ASSUMPTIONS = ["positions are compared as the spelling at the reported span (byte offsets move when declarations move)"]
 
 
+KNOWN_CYCLE_LOCATION = "cycle-location-depends-on-order"
+
+
 def observe(r, texts):
     """(verdict, sorted codes, spelling at the first diagnostic per code)"""
     if "panic" in r or "abort" in r:
@@ -97,6 +100,13 @@ def search(run, info):
                        or "declared without CONSTANT" in m[1]][:4]
             for code, what, mu in picked:
                 variants.append(("single-fault", code, mu))
+        if ui % 4 == 0:
+            # a containment cycle of two or three function blocks next to the valid declarations: one fault, whatever the order
+            k = rng.choice([2, 2, 3])
+            names = ["Cy%d_%d" % (ui, j) for j in range(k)]
+            cyc = [gen_sem.Decl("fb", names[j], ["FUNCTION_BLOCK %s" % names[j], "VAR", "  nxt : %s;" % names[(j + 1) % k], "END_VAR", "END_FUNCTION_BLOCK"])
+                   for j in range(k)]
+            variants.append(("single-fault", "P0010", list(u[:2]) + cyc))
         for kind, code, unit in variants:
             decls = [d.text() for d in unit]
             n = len(decls)
@@ -128,12 +138,17 @@ def search(run, info):
     rl_n, rl_bad = rules_corr.check(run, [[(f[0], c["_texts"][f[0]]) for f in c["files"]] for c in cases[::step]], info, "c06")
     ty_n, ty_bad = rules_corr.check_types(run, [[(f[0], c["_texts"][f[0]]) for f in c["files"]] for c in cases[::step]], info, "c06")
     ek_n, ek_bad = rules_corr.check_exprkind(run, [[(f[0], c["_texts"][f[0]]) for f in c["files"]] for c in cases[::step]], info, "c06")
+    known_keys = {x["key"] for x in run.known}
     for gi, (kind, code, decls, idxs) in enumerate(groups):
         obs = {}
         for ci in idxs:
             o = observe(res[ci], cases[ci]["_texts"])
             run.count((gi, ci), True, "%s:%s" % (kind, cases[ci]["op"]))
             obs.setdefault(o if kind == "single-fault" else o[:2], []).append(ci)
+        if len(obs) > 1 and code == "P0010" and KNOWN_CYCLE_LOCATION in known_keys and len({k[:2] for k in obs}) == 1:
+            # verdict and code agree; only the construct the cycle is reported at differs with the order (recorded finding)
+            run.known_finding(KNOWN_CYCLE_LOCATION, "a recursive cycle (P0010) is reported at a different member of the cycle depending on the order of the declarations")
+            continue
         if len(obs) > 1:
             keys = sorted(obs, key=str)
             a, b = obs[keys[0]][0], obs[keys[1]][0]
